@@ -15,7 +15,7 @@ def run(ctx):
     thorough = ctx.tier == "thorough"
     edges, r = curves.edges_from_tlc(ctx, ["A", "B", ""], 2, emit=True)
     ctx.extra["model_edges"] = len(edges)
-    limit = None if thorough else 6000
+    limit = 150000 if thorough else 6000
     ctx.exhaustive = limit is None
     traces, meta = curves.replay_edges(ctx, edges, limit, rng)
     if thorough:
